@@ -284,6 +284,7 @@ def check_ready_predicate(ctx, facts):
 
 
 def check_marks(ctx, facts):
+    idem = idempotent_marks(facts)
     cs = callers_of(facts, "allocator::BlockStateTracker::set_checkpointed_true")
     n_read = 0
     for caller, sites in sorted(cs.items()):
@@ -294,6 +295,7 @@ def check_marks(ctx, facts):
                 n_read += 1
                 # (1) cursor at end of block
                 end_ok = False
+                cursor_ok = False
                 for T in all_tests(b):
                     if T.kind == "cmp" and T.op == "Ge":
                         pb = op_place(T.b)
@@ -302,16 +304,22 @@ def check_marks(ctx, facts):
                             asrc, _, _ = origins(b, s.node["args"][0])
                             if any(o.kind == "field" and o.what[1] == "id" for o in asrc):
                                 end_ok = True
+                                osrc, _, _ = origins(b, T.a)
+                                if any(o.kind == "field" and o.what == ("wal::runtime::reader::ColReaderInfo", "cur_block_offset") for o in osrc):
+                                    cursor_ok = True
                 if end_ok:
                     ctx.ok("C12.3", caller, "mark dominated by `cursor offset >= block.used`", b.relfile, s.line)
                 else:
                     ctx.violate("C12.3", caller, "mark-not-at-end-of-block", b.relfile, s.line, "a block is marked consumed without the cursor being at its end")
-                # (2) consuming read only
+                # (2) consuming read, or a mark justified by the shared cursor standing at the end of the
+                #     block (all its entries were consumed earlier) provided marks are idempotent
                 if guarded(b, s.bb, checkpoint_edges(b)):
                     ctx.ok("C12.3", caller, "mark is guarded by checkpoint", b.relfile, s.line)
+                elif end_ok and cursor_ok and idem and (caller != "walrus_read::batch_read_for_topic" or guarded(b, s.bb, stateful_edges(b)[0])):
+                    ctx.ok("C12.3", caller, "mark justified by the shared cursor at end of block; marks are idempotent (C12.4)", b.relfile, s.line)
                 else:
                     ctx.violate("C12.3", caller, "mark reachable from a non-consuming read", b.relfile, s.line,
-                                "set_checkpointed_true is reachable with checkpoint=false: peeks/empty polls count blocks as consumed")
+                                "set_checkpointed_true is reachable with checkpoint=false and is not an idempotent, cursor-justified mark: peeks/empty polls count blocks as consumed")
             elif caller == "walrus::Walrus::startup_chore":
                 asrc, _, _ = origins(b, s.node["args"][0])
                 from_chain = any(o.kind == "field" and o.what[1] == "chain" for o in asrc) and any(o.kind == "field" and o.what[1] == "id" for o in asrc)
@@ -331,7 +339,18 @@ def check_marks(ctx, facts):
     ctx.floor("C12.3", "consumed-mark sites in the read paths", n_read, 2)
 
 
-def check_idempotence(ctx, facts):
+def idempotent_marks(facts):
+    """True iff every increment of FileState.checkpoint_block_ctr is control-dependent on an atomic
+    read-modify-write of BlockState.is_checkpointed (C12.4 holds)."""
+    class _N:
+        def __getattr__(self, k):
+            return lambda *a, **kw: None
+    res = check_idempotence(_N(), facts, collect=True)
+    return bool(res) and all(res)
+
+
+def check_idempotence(ctx, facts, collect=False):
+    results = []
     ATOM = r"sync::atomic::Atomic(::<[^>]*>)?::"
     loads, stores, rmws = [], [], []
     for name, b in facts.bodies.items():
@@ -368,6 +387,7 @@ def check_idempotence(ctx, facts):
                 for bb, (region, join) in t.branches.items():
                     if s.bb in region:
                         dep = True
+            results.append(dep)
             if dep:
                 ctx.ok("C12.4", caller, "consumed counter increment is controlled by the previous flag value", b.relfile, s.line)
             else:
@@ -375,6 +395,7 @@ def check_idempotence(ctx, facts):
                 ctx.violate("C12.4", caller, "consumed-counter-increment-not-idempotent", b.relfile, s.line,
                             "every call increments the per-file consumed counter, whether or not this block was already marked (%s): repeated marks of one block "
                             "inflate the counter past total_blocks and a file with unconsumed blocks becomes deletable" % detail)
+    return results
 
 
 def run(ctx):
